@@ -110,6 +110,7 @@ func NewDB(store *Store, name string, path string) *DB {
 	db.wal.frameOffsets = make(map[uint32]int64)
 	db.wal.chksums = make(map[uint32][]ltx.Checksum)
 	db.guardSets.m = make(map[uint64]*GuardSet)
+	verifInitDB(db)
 
 	return db
 }
@@ -1012,6 +1013,7 @@ func (db *DB) TruncateDatabase(ctx context.Context, size int64) (err error) {
 
 // truncateDatabase truncates the database to a given page count.
 func (db *DB) truncateDatabase(f *os.File, pageN uint32) (err error) {
+	verifStep(db, "truncate", pageN, false)
 	prevPageN := db.pageN.Load()
 
 	defer func() {
@@ -1110,6 +1112,7 @@ func (db *DB) WriteDatabaseAt(ctx context.Context, f *os.File, data []byte, offs
 
 // writeDatabasePage writes a page to the database file.
 func (db *DB) writeDatabasePage(f *os.File, pgno uint32, data []byte, invalidate bool) (err error) {
+	verifStep(db, "write", pgno, invalidate)
 	var prevChksum, newChksum ltx.Checksum
 	defer func() {
 		TraceLog.Printf("[WriteDatabasePage(%s)]: pgno=%d chksum=%s prev=%s %s", db.name, pgno, newChksum, prevChksum, errorKeyValue(err))
